@@ -91,9 +91,9 @@ CLAIMED.update({
 CLAIMED.update({
  "C19": {
   "engine": "purefh+coqc",
-  "technique": "Coq round-trip theorems for the wire mapping (incl. uint64/int64 timestamp arithmetic) and for the WHOLE msgpack form of Transaction, Vertex and Melange (fixmap, fixstr keys, fixstr/str8/16/32, nil/bin8/16/32, ext -1 time in its 4/8/12-byte forms, 0xcf uint64) over all field contents, with injectivity; the struct layout is regenerated from the Go struct tags on every run and compared by a kernel-evaluated theorem; byte-exact differential of the modelled encoders against msgpack.Marshal, field-wise round-trip and stability monitors for protobuf and msgpack on the boundary sweep; and for the protobuf WIRE form (base-128 varints, proto3 presence rules, length-delimited strings / bytes / embedded Transaction and Spice, a record-grammar decoder: any order, unknown fields skipped, last scalar wins, repeated sub-messages merged): round trip of every wire struct and of the wire struct of every storable vertex, injectivity; model encoder byte-exact against proto.Marshal, model decoder against proto.Unmarshal on the real bytes, on reordered records + an unknown field, and on every proper prefix",
-  "text": "C19_proto_roundtrip (all fields, all int64-nanosecond instants); C19_msgpack_uint64_roundtrip, C19_msgpack_time_roundtrip; C19_msgpack_layout_is_the_source_layout (tags, order and kinds of the three structs as declared in the source now), C19_msgpack_encoders_follow_layout, C19_msgpack_transaction_roundtrip / C19_msgpack_vertex_roundtrip (every string/byte-string length below 2^32 incl. nil slices, any bytes, all 2^64 integers, all int64 seconds and nanoseconds; whatever follows in the input), C19_msgpack_encoding_injective. C19_protowire_varint_roundtrip (all 2^64 values), C19_protowire_message_roundtrip (every wire struct: empty or absent fields, nil sub-messages, every length), C19_protowire_vertex_roundtrip (the wire struct of every well-formed vertex), C19_protowire_encoding_injective, C19_protowire_unknown_field_skipped. The harness drives the real mapping functions, proto.Marshal/Unmarshal and both msgpack libraries over the property's boundary values and compares every signed field, both signed messages and the verification result; enc_vtx / enc_trx are compared byte-for-byte with the library output and dec_vtx / dec_trx of the real bytes with the generated value (64 kB fields as regenerated pattern segments). enc_pvtx (to_pvtx v) is compared byte-for-byte with proto.Marshal of the mapped vertex, dec_pvtx with the value on those bytes, on the same records reversed with an unknown field appended, and with proto.Unmarshal's verdict on every proper prefix of small messages. KNOWN-FINDINGs: non-UTF-8 text cannot go on the wire; a transaction dated exactly at the epoch is refused by wire ingress.",
-  "note": "Partial: the shamaton msgpack DECODER is library code exercised by the round-trip monitors, not modelled (the model decoder is proved against the model encoder; the model encoder is byte-exact against the real encoder). Of protobuf, wire types 1/3/4/5 (never produced for these messages; the library skips them as unknown fields, the model decoder refuses them) and UTF-8 validation of string fields (known finding) are not modelled.", "design_ref": "6 C19",
+  "technique": "Coq round-trip theorems for the wire mapping (incl. uint64/int64 timestamp arithmetic) and for the WHOLE msgpack form of Transaction, Vertex and Melange (fixmap, fixstr keys, fixstr/str8/16/32, nil/bin8/16/32, ext -1 time in its 4/8/12-byte forms, 0xcf uint64) over all field contents, with injectivity; the struct layout is regenerated from the Go struct tags on every run and compared by a kernel-evaluated theorem; byte-exact differential of the modelled encoders against msgpack.Marshal, field-wise round-trip and stability monitors for protobuf and msgpack on the boundary sweep; and for the protobuf WIRE form (base-128 varints, proto3 presence rules, length-delimited strings / bytes / embedded Transaction and Spice, a record-grammar decoder: any order, unknown fields and fixed-width records skipped, last scalar wins, repeated sub-messages merged, UTF-8 validated; the VrxMsgGossip/TrxMsgGossip envelopes with their repeated Gossiper list): round trip of every wire struct, of the wire struct of every storable vertex and of both envelopes, injectivity, independence of record order, Marshal refuses exactly the non-UTF-8 messages; model encoder byte-exact against proto.Marshal, model decoder against proto.Unmarshal on the real bytes, on reordered records + an unknown field, on every proper prefix and on byte-level edits of the real bytes",
+  "text": "C19_proto_roundtrip (all fields, all int64-nanosecond instants); C19_msgpack_uint64_roundtrip, C19_msgpack_time_roundtrip; C19_msgpack_layout_is_the_source_layout (tags, order and kinds of the three structs as declared in the source now), C19_msgpack_encoders_follow_layout, C19_msgpack_transaction_roundtrip / C19_msgpack_vertex_roundtrip (every string/byte-string length below 2^32 incl. nil slices, any bytes, all 2^64 integers, all int64 seconds and nanoseconds; whatever follows in the input), C19_msgpack_encoding_injective. C19_protowire_varint_roundtrip (all 2^64 values), C19_protowire_message_roundtrip (every wire struct with UTF-8 strings: empty or absent fields, nil sub-messages, every length), C19_protowire_marshal_unmarshal, C19_protowire_non_utf8_has_no_wire_form / C19_protowire_non_utf8_not_read (the known finding as theorems of the model, utf8_valid = RFC 3629), C19_protowire_vertex_roundtrip (the wire struct of every well-formed vertex), C19_protowire_encoding_injective, C19_protowire_any_record_order (every permutation of the records reads as the same vertex), C19_protowire_vertex_envelope_roundtrip / C19_protowire_transaction_envelope_roundtrip (VrxMsgGossip / TrxMsgGossip with the repeated Gossiper list: same entries, same order), C19_protowire_unknown_field_skipped. The harness drives the real mapping functions, proto.Marshal/Unmarshal and both msgpack libraries over the property's boundary values and compares every signed field, both signed messages and the verification result; enc_vtx / enc_trx are compared byte-for-byte with the library output and dec_vtx / dec_trx of the real bytes with the generated value (64 kB fields as regenerated pattern segments). enc_pvtx (to_pvtx v) is compared byte-for-byte with proto.Marshal of the mapped vertex, dec_pvtx with the value on those bytes, on the same records reversed with an unknown field appended, with proto.Unmarshal's verdict on every proper prefix of small messages, and on 48 edits per small message (bit flips, 0xff bytes, incremented header bytes, inserted fixed32/fixed64 records, duplicated records) both sides must refuse or read messages with the same canonical bytes; vertices proto.Marshal refuses must be refused by marshal_pvtx; both gossip envelopes with 0-3 gossiper entries are compared byte for byte and decoded back. KNOWN-FINDINGs: non-UTF-8 text cannot go on the wire; a transaction dated exactly at the epoch is refused by wire ingress.",
+  "note": "Partial: the shamaton msgpack DECODER is library code exercised by the round-trip monitors, not modelled (the model decoder is proved against the model encoder; the model encoder is byte-exact against the real encoder). Of protobuf, groups (wire types 3/4: deprecated, never produced; the library skips a well-nested unknown group, the model decoder refuses it) are not modelled; fixed32/fixed64 records, unknown fields, duplicate records, merge of repeated sub-messages and UTF-8 validation are.", "design_ref": "6 C19",
  },
 })
 CLAIMED.update({
